@@ -150,7 +150,7 @@ def run_c16(chk, prog):
                 ok4 = rk == "Ok" and rv[0] == "adt" and rv[3] == "None"
                 chk.ob("C16.O4", "no read: returns Ok(None) [%s]%s" % (kdesc, tag), ok4, key="ssb:noread-ret", where=where, detail=fmt_term(p.value))
             chk.sample({"kinds": sorted(kinds), "port_effects": roles, "returns": fmt_term(p.value)[:80]})
-        chk.floor("C16", "returning paths%s" % tag, nret, 8)
+        chk.floor("C16", "returning paths%s" % tag, nret, 4)
         chk.extra["paths" + tag] = len(paths)
     want = {"Hello", "QueryState", "RequestOperation"}
     allk = set(v["name"] for v in prog.adts[MSG]["variants"])
